@@ -166,6 +166,10 @@ def gen_cases(tier, seed):
         for sp in windows.cases(rng, action, n, core_reps=1 if quick else 3, nths=(0, 1) if quick else (0, 1, 2, 3), all_lines=not quick):
             sp['family'] = 'C-line-' + action
             cases.append(sp)
+    # (C4) one preemption inside each read-modify-write statement on shared state (lost updates -> lost wake-ups)
+    for sp in windows.rmw_cases(rng, nths=(0, 1) if quick else (0, 1, 2, 3), reps=1 if quick else 3):
+        sp['family'] = 'C-rmw'
+        cases.append(sp)
     # (D) re-entrant subscribers
     for kind, extra in gen.KINDS:
         for where, acts in REENTER.items():
